@@ -28,6 +28,18 @@ theorem table_alias_factor_one : ∀ ks ∈ Gen.unitSets, ∀ u ∈ ks.2, ∀ a 
 /-- `sameKind` is symmetric on the table -/
 theorem sameKind_symm : ∀ a ∈ allNames, ∀ b ∈ allNames, sameKind a b = sameKind b a := by decide +kernel
 
+/-- where the table's factor is exact (an `int` or a `Fraction`: 506 of the 794 ordered pairs of different names of one
+    kind), it *is* the ratio of the hand-written physical reference values - so for those pairs the comparison of
+    `equal_amount_decided_by_factor` is the comparison of the two physical amounts themselves -/
+theorem exact_factors_are_reference_ratios : ∀ a ∈ allNames, ∀ b ∈ allNames, sameKind a b = true →
+    (match convertBetween false b a, refValue a, refValue b with
+     | some sc, some ra, some rb => sc.isFlt || sc.val == rb / ra
+     | _, _, _ => false) = true := by decide +kernel
+
+/-- non-vacuity of the exact case: g → kg is the exact 1/1000 -/
+example : (convertBetween false "g".toList "kg".toList).map (fun sc => (sc.isFlt, sc.val)) = some (false, 1 / 1000) := by
+  decide +kernel
+
 -- ================================================================ refusals
 /-- a quantity with a unit and one without are never equal amounts -/
 theorem equal_amount_unit_vs_none {q iq : Quantity} (h : q.unit.isSome ≠ iq.unit.isSome) :
